@@ -38,6 +38,10 @@ CHECKS = {
    technique="exhaustive enumeration of all pairs and triples of names over a case-fold boundary alphabet against an independent RFC 4034 §6.1 comparator",
    text="All pairs (and triples over a core) of relative and absolute names of <= 2-3 labels over the alphabet {00,-,@,A,Z,[,`,a,z,{,FF}: fullcompare relation/order/common-label count, all rich comparisons, subdomain/superdomain/parent/split, eq <=> equal up to ASCII case => equal hash, antisymmetry, transitivity, sorted() vs reference sort, relativize/derelativize identity for several origins; successor/predecessor strictly after/before (or wrap) and within length limits for every such name plus maximal-length names.",
    note="Bounded label count/length and alphabet; minimality of successor/predecessor is not demanded (the property only requires strict order)."),
+ "C16": dict(level="model_checking", ref="DESIGN.md §2 C16",
+   technique="exhaustive exploration of the complete per-query outcome tree of the real sync and async resolve() loops with scripted nameservers and a virtual clock, against a reference model of the stub algorithm plus model-independent invariants",
+   text="For ~20 resolver configurations (servers 1-3, search list/ndots/domain rules, retry_servfail, tcp, always-max-size server, raise_on_no_answer, Cache/LRUCache with preloaded hit/no-data/NXDOMAIN entries, lifetime and timeout variants) the explorer extends a script of per-query outcomes (answer, CNAME chains incl. 15/16/17 links, no-data, NXDOMAIN, SERVFAIL, REFUSED, NOTIMP, YXDOMAIN, malformed, truncated, timeout, OSError, EOF, answer-with-NXDOMAIN) whenever the real resolver asks for one more, until the resolver itself terminates; every complete script is run through dns.resolver.Resolver.resolve and dns.asyncresolver.Resolver.resolve (coroutine driven without an event loop), which must agree with each other and with mc's reference (query sequence with server/tcp/name/timeout, back-off sleeps, result class and payload, elapsed time, cache keys), and satisfy invariants (no broken server re-asked per candidate, one TCP retry after truncation, NXDOMAIN only if all candidates NXDOMAIN, cache serves an immediate second resolution without queries).",
+   note="Scripted dns.nameserver.Nameserver subclasses (public extension point); virtual clock; rotate off; a timeout outcome consumes exactly the offered timeout; outcome alphabets are per configuration (listed in the evidence)."),
 }
 ALL = ["C%02d" % i for i in range(1, 21)]
 m = {
